@@ -9,7 +9,7 @@
 From Coq Require Import String Ascii List Bool ZArith NArith.
 From NRI Require Import Model.Proto Model.Schema Proofs.ProtoWireProofs Proofs.ProtoProofs.
 Import ListNotations.
-Open Scope N_scope.
+Local Open Scope N_scope.
 
 (* ---- varints ---- *)
 
